@@ -535,6 +535,9 @@ func (h *hist) window(t int) {
 	if b > n {
 		b = n
 	}
+	if b < 0 {
+		b = 0
+	}
 	if a > b {
 		a = b
 	}
